@@ -5,7 +5,8 @@
    transport, and the one Bug error allowed is BugEmsgSizeNoProbe (see the _refuted witnesses). *)
 From Utp Require Import Base.Prelude Wire.SeqNr Wire.Header Rtt.Rtte Rtt.Rtte_Proofs Mtu.SegSizes Rx.Rx
   Rx.Rx_Proofs Tx.Ring Tx.Ring_Proofs Tx.Segments Tx.Segments_Proofs Conn.Recovery Conn.Msg
-  Conn.VSockRec Conn.VSock Conn.VSockRun Conn.VObs Conn.C10_Pred Conn.VSock_Inv Conn.C10_Proofs.
+  Conn.VSockRec Conn.VSock Conn.VSockRun Conn.VObs Conn.C10_Pred Conn.VSock_Inv Conn.C10_Proofs
+  Conn.VSock_PollAux Conn.VSock_PollIn Conn.VSock_PollTx Conn.VSock_Poll.
 
 (* (a) the joint invariant holds of every freshly built connection with a valid configuration *)
 Theorem c10_inv_init : forall (CC : Type) (cci : cc_iface CC) (mk_cc : Z -> Z -> CC) (c : vconfig),
@@ -157,6 +158,186 @@ Theorem c10_calc_pipe_never_panics : forall t high_rxt high_data rtt now,
   calc_pipe t high_rxt high_data rtt now <> None.
 Proof. exact calc_pipe_total. Qed.
 
+(* ==== P1: the joint invariant of one connection across a WHOLE poll and across ALL event lists ====
+   vs_x ti tm p q s = vs_inv_p ti tm p s (byte accounting, VSock_Inv.v) + per-segment facts (send times
+   >= 0; only the LAST segment may be an unacknowledged MTU probe, its size in q; non-probe segments are
+   at most min_ss) + 0 <= v_now <= 2^60 s.   vs_xe = exists p, vs_x .. p .. (the state of an error exit:
+   acknowledged bytes may still be in the ring).   spx strict m Q E: m does not panic, an error is an
+   allowed one (strict = true: no Bug error; false: BugEmsgSizeNoProbe only) and its state satisfies E.
+   Hypotheses: cc_total (the congestion controller's on_ack never panics) and a clock within
+   [0, 2^60 s] at every poll (Rtte.sample).  No hypothesis on sequence-number order is left
+   (calc_pipe, the one site that needed one, was the panic of D21 found here; it is total now). *)
+
+(* (1) one incoming message *)
+Theorem c10_process_incoming_message_no_bug : forall (CC : Type) (cci : cc_iface CC) (strict : bool),
+  cc_total cci ->
+  forall (ti tm p : Z) (q : Z -> Prop) (s : vsock CC) (m : msg),
+  vs_x ti tm p q s -> v_state s <> SynReceived ->
+  spx strict (process_incoming_message cci s m) (pim_post ti tm p q s) (vs_xe ti tm q).
+Proof. exact @process_incoming_message_x. Qed.
+
+(* (2) all queued messages: truncate_front re-establishes p = 0, calc_pipe returns Some *)
+Theorem c10_process_all_no_bug : forall (CC : Type) (cci : cc_iface CC) (strict : bool),
+  cc_total cci ->
+  forall (ti tm : Z) (q : Z -> Prop) (s : vsock CC),
+  vs_x ti tm 0 q s -> ef strict s -> v_state s <> SynReceived ->
+  spx strict (process_all_incoming_messages cci s)
+    (fun (s' : vsock CC) (_ : unit) => vs_x ti tm 0 q s' /\ ef strict s' /\ loop_rel s s')
+    (vs_xe ti tm q).
+Proof. exact @process_all_x. Qed.
+
+(* (2) the receive loop, by induction over the fuel (= the inbox) *)
+Theorem c10_recv_loop_no_bug : forall (CC : Type) (cci : cc_iface CC) (strict : bool),
+  cc_total cci ->
+  forall (ti tm : Z) (q : Z -> Prop) (fuel : list msg) (s : vsock CC) (acc : on_ack_result),
+  (length (v_inbox s) < length fuel)%nat -> C06_RecProofs.acc_ok acc ->
+  rl_inv strict ti tm q (ar_acked_bytes acc) s ->
+  spx strict (recv_loop cci fuel s acc) (rl_post strict ti tm q s) (vs_xe ti tm q).
+Proof. exact @recv_loop_x. Qed.
+
+(* the sending half, with the state of error exits and exactly what a restart leaves behind *)
+Theorem c10_send_tx_queue_restart : forall (CC : Type) (cci : cc_iface CC) (strict : bool)
+    (ti tm p : Z) (q : Z -> Prop) (s : vsock CC),
+  vs_x ti tm p q s -> ef strict s ->
+  spx strict (send_tx_queue cci s)
+    (fun (s' : vsock CC) (_ : unit) => stq_post strict ti tm p q s s') (vs_xe ti tm q).
+Proof. exact @send_tx_queue_x. Qed.
+
+Theorem c10_split_probe_facts : forall (CC : Type) (cci : cc_iface CC) (strict : bool)
+    (ti tm : Z) (q : Z -> Prop) (s : vsock CC),
+  vs_x ti tm 0 q s -> ef strict s ->
+  spx strict (split_tx_queue_into_segments cci s)
+    (fun (s' : vsock CC) (_ : unit) => split_post strict ti tm q s s') (fun _ : vsock CC => False).
+Proof. exact @split_x. Qed.
+
+(* (3) one iteration of the restart loop: BrPanic is impossible; a BrReturn carries an allowed result
+   and its state satisfies vs_x (vs_xe after an error); a BrRestart state satisfies restart_R *)
+Theorem c10_poll_body_no_panic : forall (CC : Type) (cci : cc_iface CC) (strict : bool),
+  cc_total cci ->
+  forall (ti tm : Z) (q : Z -> Prop) (s0 : vsock CC),
+  vs_x ti tm 0 q s0 -> 0 <= v_env_now s0 <= SAMPLE_BOUND -> ef strict s0 ->
+  br_ok strict ti tm (restart_R strict ti tm q s0) (envp s0) (poll_body cci s0).
+Proof. exact @poll_body_x. Qed.
+
+(* (4) VirtualSocket::poll as defined (fuel 64): never PollPanic -- the fuel is never exhausted because
+   every restart after the first at least halves max_ss - min_ss (< 65536) -- and only allowed errors *)
+Theorem c10_poll_no_panic : forall (CC : Type) (cci : cc_iface CC) (strict : bool),
+  cc_total cci ->
+  forall (ti tm : Z) (s : vsock CC),
+  vs_x ti tm 0 qT s -> 0 <= v_env_now s <= SAMPLE_BOUND -> ef strict s ->
+  let '(s', r) := poll cci s in ret_ok strict ti tm (envp s) s' r.
+Proof. exact @poll_x. Qed.
+
+(* the halving argument: a restart never widens max_ss - min_ss, and from a table without live probe
+   (q = no size) it needs max_ss - min_ss >= 1 and at least halves it *)
+Theorem c10_restart_halves : forall (CC : Type) (strict : bool) (ti tm : Z) (q : Z -> Prop)
+    (s0 s' : vsock CC),
+  ss_ok (v_ss s0) -> restart_R strict ti tm q s0 s' ->
+  0 <= dss (v_ss s') <= dss (v_ss s0) /\
+  ((forall z : Z, ~ q z) -> 1 <= dss (v_ss s0) /\ 2 * dss (v_ss s') <= dss (v_ss s0)).
+Proof. exact @restart_measure. Qed.
+
+Theorem c10_poll_loop_no_panic : forall (CC : Type) (cci : cc_iface CC) (strict : bool),
+  cc_total cci ->
+  forall (ti tm : Z) (fuel : nat) (s : vsock CC),
+  vs_x ti tm 0 qF s -> 0 <= v_env_now s <= SAMPLE_BOUND -> ef strict s ->
+  dss (v_ss s) < 2 ^ (Z.of_nat fuel - 1) -> (1 <= fuel)%nat ->
+  let '(s', r) := poll_loop cci fuel s in ret_ok strict ti tm (envp s) s' r.
+Proof. exact @poll_loop_x. Qed.
+
+Theorem c10_poll_result : forall (CC : Type) (strict : bool) (ti tm : Z) (e0 : Z * option Z)
+    (s' : vsock CC) (r : poll_result),
+  ret_ok strict ti tm e0 s' r ->
+  r <> PollPanic /\
+  (forall b : bug_site, r = PollReadyErr (ErrBug b) -> b = BugEmsgSizeNoProbe /\ strict = false).
+Proof. exact @ret_ok_result. Qed.
+
+(* in the strict reading (the transport never answers EMSGSIZE) an iteration never restarts *)
+Theorem c10_poll_body_strict_no_restart : forall (CC : Type) (cci : cc_iface CC) (strict : bool),
+  cc_total cci ->
+  forall (ti tm : Z) (q : Z -> Prop) (s0 : vsock CC),
+  strict = true -> vs_x ti tm 0 q s0 -> 0 <= v_env_now s0 <= SAMPLE_BOUND -> ef strict s0 ->
+  forall s' : vsock CC, poll_body cci s0 <> BrRestart s'.
+Proof. exact @poll_body_strict. Qed.
+
+(* (5) every event *)
+Theorem c10_vstep_inv : forall (CC : Type) (cci : cc_iface CC) (strict : bool),
+  cc_total cci ->
+  forall (ti tm : Z) (s : vsock CC) (o : vop),
+  tinv ti tm s -> op_clock_ok o -> op_ef strict s o ->
+  let '(s', out, _, _) := vstep cci s o in out_ok strict ti tm s s' out.
+Proof. exact @vstep_x. Qed.
+
+Theorem c10_vstep_next : forall (CC : Type) (strict : bool) (ti tm : Z) (s s' : vsock CC) (out : vout),
+  tinv ti tm s -> out_ok strict ti tm s s' out -> poll_finished out = false -> tinv ti tm s'.
+Proof. exact @out_ok_next. Qed.
+
+(* (6) every event list *)
+Theorem c10_vtrace_inv : forall (CC : Type) (cci : cc_iface CC),
+  cc_total cci ->
+  forall (ti tm : Z) (ops : list vop) (s : vsock CC),
+  tinv ti tm s -> Forall op_clock_ok ops -> Forall (obs_ok ti tm false) (vtrace cci s ops).
+Proof. exact @vtrace_x. Qed.
+
+Theorem c10_vtrace_inv_strict : forall (CC : Type) (cci : cc_iface CC),
+  cc_total cci ->
+  forall (ti tm : Z) (ops : list vop) (s : vsock CC),
+  tinv ti tm s -> v_emsg_limit s = None ->
+  Forall op_clock_ok ops -> Forall op_nolimit ops -> Forall op_script_legit ops ->
+  Forall (obs_ok ti tm true) (vtrace cci s ops).
+Proof. exact @vtrace_strict. Qed.
+
+Theorem c10_run_no_panic_no_bug : forall (CC : Type) (cci : cc_iface CC),
+  cc_total cci ->
+  forall (mk_cc : Z -> Z -> CC) (c : vconfig) (ops : list vop),
+  vconfig_ok c = true -> Forall op_clock_ok ops ->
+  exists s0 : vsock CC,
+    vsock_new cci mk_cc c = Some s0 /\
+    Forall (obs_ok (vc_tx_init c) (vc_tx_max c) false) (vtrace cci s0 ops).
+Proof. exact @run_no_panic_no_bug. Qed.
+
+Theorem c10_run_no_bug_strict : forall (CC : Type) (cci : cc_iface CC),
+  cc_total cci ->
+  forall (mk_cc : Z -> Z -> CC) (c : vconfig) (ops : list vop),
+  vconfig_ok c = true -> Forall op_clock_ok ops -> Forall op_nolimit ops -> Forall op_script_legit ops ->
+  exists s0 : vsock CC,
+    vsock_new cci mk_cc c = Some s0 /\
+    Forall (obs_ok (vc_tx_init c) (vc_tx_max c) true) (vtrace cci s0 ops).
+Proof. exact @run_no_bug_strict. Qed.
+
+(* the extracted predicate c10_step_ok holds on every model trace on which no path limit is set
+   (with a limit it is refuted: c10_peer_payload_bug_refuted, c10_unsent_probe_ack_bug_refuted) *)
+Theorem c10_step_ok_model_nolimit : forall (CC : Type) (cci : cc_iface CC),
+  cc_total cci ->
+  forall (mk_cc : Z -> Z -> CC) (c : vconfig) (ops : list vop),
+  vconfig_ok c = true -> Forall op_clock_ok ops -> Forall op_nolimit ops ->
+  exists s0 : vsock CC,
+    vsock_new cci mk_cc c = Some s0 /\ c10_step_ok c (ftrace cci s0 ops) = true.
+Proof. exact @c10_step_ok_nolimit. Qed.
+
+(* REFUTED as asked: the state of an error exit does not satisfy vs_inv (only vs_xe) *)
+Theorem c10_err_exit_not_inv_refuted :
+  exists (w : Z) (cfg : vconfig) (ops : list vop),
+    vconfig_ok cfg = true /\ Forall op_clock_ok ops /\
+    match last_state_of w cfg ops with
+    | Some s => forall ti tm : Z, ~ vs_inv ti tm s
+    | None => False
+    end.
+Proof. exact err_exit_not_inv_refuted. Qed.
+
+(* non-vacuity: the hypotheses are satisfiable; the restart loop does restart *)
+Theorem c10_p1_hyps_satisfiable :
+  cc_total (fixed_cc 100000) /\ vconfig_ok p1_cfg = true /\
+  Forall op_clock_ok p1_ops /\ Forall op_nolimit p1_ops /\ Forall op_script_legit p1_ops.
+Proof. exact p1_hyps_satisfiable. Qed.
+
+Theorem c10_restart_reachable :
+  match last_state_of 100000 p1_cfg [VoSetLimit (Some 1000); VoPoll []; VoWrite (repeat 0 (Z.to_nat 3000))] with
+  | Some s => restarts (fixed_cc 100000) 64 (set_arm_in (set_wakes (set_out (set_sends s []) []) []) None) = 1%nat
+  | None => False
+  end.
+Proof. exact restart_reachable. Qed.
+
 Print Assumptions c10_inv_init.
 Print Assumptions c10_inv_app_events.
 Print Assumptions c10_send_data_no_bug.
@@ -175,3 +356,24 @@ Print Assumptions c10_peer_payload_bug_refuted.
 Print Assumptions c10_unsent_probe_ack_bug_refuted.
 Print Assumptions c10_closed_pending_regression.
 Print Assumptions c10_calc_pipe_never_panics.
+Print Assumptions c10_process_incoming_message_no_bug.
+Print Assumptions c10_process_all_no_bug.
+Print Assumptions c10_recv_loop_no_bug.
+Print Assumptions c10_send_tx_queue_restart.
+Print Assumptions c10_split_probe_facts.
+Print Assumptions c10_poll_body_no_panic.
+Print Assumptions c10_poll_no_panic.
+Print Assumptions c10_restart_halves.
+Print Assumptions c10_poll_loop_no_panic.
+Print Assumptions c10_poll_result.
+Print Assumptions c10_poll_body_strict_no_restart.
+Print Assumptions c10_vstep_inv.
+Print Assumptions c10_vstep_next.
+Print Assumptions c10_vtrace_inv.
+Print Assumptions c10_vtrace_inv_strict.
+Print Assumptions c10_run_no_panic_no_bug.
+Print Assumptions c10_run_no_bug_strict.
+Print Assumptions c10_step_ok_model_nolimit.
+Print Assumptions c10_err_exit_not_inv_refuted.
+Print Assumptions c10_p1_hyps_satisfiable.
+Print Assumptions c10_restart_reachable.
